@@ -23,6 +23,27 @@ def parse_dump(o):
     return res
 
 
+def shape_schema(variant):
+    """every kind of FIRST member (scalar, enum, struct, fixed array of each) x {natural alignment, force_align 16, force_align 64}, each followed
+    by members that need padding: the C struct's size / alignment / offsets must be the model's whichever member carries the alignas"""
+    firsts = [("byte", {}), ("double", {}), ("E0", {"enum": True}), ("B1", {"struct": True}), ("byte", {"len": 3}), ("short", {"len": 5}),
+              ("E0", {"enum": True, "len": 3}), ("B1", {"struct": True, "len": 3}), ("B2", {"struct": True, "len": 2})]
+    S = {"namespace": None if variant == 0 else "Sh.Ape", "enums": [{"name": "E0", "type": "ushort" if variant == 0 else "ubyte", "values": [("V0", 0), ("V1", 1)]}],
+         "structs": [{"name": "B1", "fields": [{"name": "x", "type": "byte"}, {"name": "y", "type": "short"}], "force_align": None},
+                     {"name": "B2", "fields": [{"name": "x", "type": "byte"}], "force_align": None}],
+         "unions": [], "tables": []}
+    k = 0
+    for (ty, extra) in firsts:
+        for fa in (None, 16, 64):
+            f0 = dict(name="f0", type=ty, **extra)
+            tail = [{"name": "f1", "type": "byte"}] + ([{"name": "f2", "type": "int"}] if k % 2 else [])
+            S["structs"].append({"name": "SH%d" % k, "fields": [f0] + tail, "force_align": fa}); k += 1
+    S["tables"].append({"name": "T0", "fields": [{"name": "g%d" % i, "kind": "struct", "type": "SH%d" % i} for i in range(0, k, 4)] +
+                        [{"name": "v%d" % i, "kind": "vec_struct", "type": "SH%d" % i} for i in range(1, k, 5)]})
+    S["root"] = "T0"
+    return S
+
+
 def run(ctx):
     ths = proof_stage(ctx)
     if ths is None:
@@ -33,7 +54,7 @@ def run(ctx):
     vobj = [o for o in build_runtime_objs(ctx) if o.endswith("verifier.o")]
     h = build_harness(ctx, "h_schema", [os.path.join(VERIF, "harness/h_schema.c")], cobjs + vobj)
     nsch = 150 if ctx.quick() else 3000
-    schemas = []
+    schemas = [shape_schema(0), shape_schema(1)]      # always first: compiled as C with the model's static assertions
     for _ in range(nsch):
         S = schemagen.gen_schema(r)
         schemas.append(S)
@@ -60,11 +81,11 @@ def run(ctx):
         for st in S["structs"]:
             ms = struct_members(S, st, known)
             # ask the model
-            line = "layout 0 " + ",".join("%d:%d" % m for m in ms)
+            line = "layout %d " % (st.get("force_align") or 0) + ",".join("%d:%d" % m for m in ms)
             rc, out, _ = run_lines(FMODEL, [line])
             size, al, offs = out[0].split(" ")
             al = int(al)
-            if r.random() < 0.3:
+            if not st.get("force_align") and si >= 2 and r.random() < 0.3:
                 fa = r.choice([a for a in (1, 2, 4, 8, 16, 32, 64, 256) if a >= al])
                 st["force_align"] = fa
                 rc, out, _ = run_lines(FMODEL, ["layout %d " % fa + ",".join("%d:%d" % m for m in ms)])
@@ -113,7 +134,7 @@ def run(ctx):
                 if tg is None or tg["id"] != fid - 1:
                     fail.append("schema %d table %s: hidden type field of %s has id %s, expected %d" % (si, t["name"], f["name"], tg and tg["id"], fid - 1)); break
     # generated C: every header set compiles as C11, static assertions on the model's struct sizes / offsets / alignments hold
-    ncomp = 6 if ctx.quick() else 60
+    ncomp = 8 if ctx.quick() else 60
     compiled = 0
     def compile_one(si):
         S = schemas[si]
